@@ -88,6 +88,11 @@ const WITNESSES: &[(&str, &str, &str)] = &[
     ("c32_required.json", "C32-required-input-field-missing-in-generated-value", "the required field"),
 ];
 
+/// (index, mode) of the supplementary low-entropy sequence whose generated document is invalid on
+/// the current tree, each by one of the two open findings (the class of the first diagnostic
+/// decides which).
+const KNOWN_LOW_ENTROPY: &[(u64, u8)] = &[(2599, 1), (3390, 0), (6034, 0), (7627, 0), (8048, 0)];
+
 struct Ctx {
     /// (bytes, finding id, message class, finding is open)
     witnesses: Vec<(Vec<u8>, &'static str, &'static str, bool)>,
@@ -215,6 +220,36 @@ fn known_class(ctx: &Ctx, mode: usize, bytes: &[u8], sig: &str) -> Option<&'stat
         .iter()
         .find(|(b, _, class, open)| *open && b.as_slice() == bytes && sig.contains(class))
         .map(|(_, id, _, _)| *id)
+}
+
+/// Supplementary family (SAMPLING, labelled as such everywhere): a fixed, deterministic sequence
+/// of long low-entropy inputs (xorshift stream, bytes folded into 0..8, length < 2000). Defects of
+/// the generator that need a hundred or more specific choices are out of reach of the enumerated
+/// families; this sequence reaches some of them. It is not part of the exhaustive claim.
+fn low_entropy_input(index: u64, mode: u8) -> Vec<u8> {
+    let mut x: u64 = (index + 1).wrapping_mul(0x9E37_79B9_7F4A_7C15) | 1;
+    let mut next = move || {
+        x ^= x << 13;
+        x ^= x >> 7;
+        x ^= x << 17;
+        x
+    };
+    let len = (next() % 2000) as usize + 1;
+    (0..len)
+        .map(|_| {
+            let r = next();
+            match mode {
+                0 => ((r >> 24) % 8) as u8,
+                _ => {
+                    if (r >> 20) % 4 == 0 {
+                        (r >> 24) as u8
+                    } else {
+                        ((r >> 24) % 4) as u8
+                    }
+                }
+            }
+        })
+        .collect()
 }
 
 fn size_bucket(n: usize) -> &'static str {
@@ -431,6 +466,12 @@ fn main() {
             .unwrap_or_else(|| vcore::machinery_error(&format!("cannot read witness {path:?}")));
         ctx.witnesses.push((bytes, *id, *class, chk.known.is_open(id)));
     }
+    // members of the supplementary sequence on which the two open findings show (recorded by index)
+    for (idx, mode) in KNOWN_LOW_ENTROPY {
+        for (_, id, class) in &WITNESSES[1..] {
+            ctx.witnesses.push((low_entropy_input(*idx, *mode), *id, *class, chk.known.is_open(id)));
+        }
+    }
     let modes = 1 + ctx.schemas.len();
     if let Some(case) = chk.replay_case() {
         let bytes: Vec<u8> = case["bytes"].as_array().map(|a| a.iter().map(|v| v.as_u64().unwrap_or(0) as u8).collect()).unwrap_or_default();
@@ -497,6 +538,19 @@ fn main() {
         }
     });
     chk.absorb(stats);
+    // supplementary low-entropy sequence (sampling; see low_entropy_input)
+    let low_n: u64 = chk.tier().pick(1500, 10000);
+    let dump = std::env::var("C32_DUMP_LOW").is_ok();
+    let stats = vcore::par_sweep(low_n * 2, 16, |i, st| {
+        let bytes = low_entropy_input(i / 2, (i % 2) as u8);
+        let before = st.failures.values().map(|f| f.0).sum::<u64>();
+        run_case(&ctx, &bytes, 0, st);
+        run_case(&ctx, &bytes, MODE_DOC50, st);
+        if dump && st.failures.values().map(|f| f.0).sum::<u64>() > before {
+            println!("LOWFAIL {} {}", i / 2, i % 2);
+        }
+    });
+    chk.absorb(stats);
     // witness family (fixed inputs, see WITNESSES): both whole-document builders
     let mut st = Stats::default();
     for (bytes, _, _, _) in &ctx.witnesses {
@@ -513,6 +567,7 @@ fn main() {
         "long_periodic_family": {"alphabet": LONG_ALPHA, "unit_max_len": chk.tier().pick(2, 3), "lengths": LONG_LENS.iter().filter(|l| **l <= sp.long_max_len).collect::<Vec<_>>()},
         "deviation_family": {"base": "all-zero input", "length": dev_len, "max_changed_bytes": 2, "values": DEV_VALUES, "builders": ["default", "every max_* = 50"]},
         "witness_family": WITNESSES.iter().map(|w| w.0).collect::<Vec<_>>(),
+        "supplementary_low_entropy_sequence": {"kind": "SAMPLING (fixed deterministic sequence, not exhaustive)", "inputs": low_n * 2, "max_len": 2000},
         "inputs": total,
         "modes": std::iter::once("whole document".to_string()).chain(ctx.schemas.iter().map(|s| format!("operation against base schema {}", s.0))).collect::<Vec<_>>(),
     });
